@@ -293,49 +293,67 @@ Proof. vm_compute. reflexivity. Qed.
 Lemma eqb_polygon_point : bytes_eqb k_polygon k_point = false.
 Proof. vm_compute. reflexivity. Qed.
 
-(* the repaired writer: every point and rectangle, and every other object whose coordinates are
-   finite, is read back with the same type and the same coordinates *)
-Theorem geo_roundtrip g :
-  match g with GOther k cs => bytes_eqb k k_point = false /\ forallb finite cs = true | _ => True end ->
-  option_map coords (dec (enc g)) = Some (coords g).
+Lemma valid_finite n : valid n = true -> finite n = true.
+Proof. destruct n; cbn; congruence. Qed.
+
+(* the repaired writer, with or without REQUIREVALID: every point and rectangle POINT / BOUNDS can
+   create, and every other object that the same server accepted through the GeoJSON reader (finite
+   coordinates; valid ones when it runs with REQUIREVALID), is read back with the same type and the
+   same coordinates *)
+Theorem geo_roundtrip rv g :
+  match g with
+  | GOther k cs => bytes_eqb k k_point = false /\ forallb finite cs = true /\ (rv = true -> forallb valid cs = true)
+  | _ => True
+  end ->
+  option_map coords (dec rv (enc g)) = Some (coords g).
 Proof.
   destruct g as [y x|y x z|a b c d|k cs]; intros H.
-  - cbn [enc]. destruct (finite y && finite x) eqn:F; [|reflexivity].
-    apply andb_true_iff in F. destruct F as [Fy Fx]. destruct y, x; try discriminate.
-    unfold enc_orig. cbn [coords fst snd map jof dec]. rewrite eqb_point_refl. reflexivity.
-  - cbn [enc]. destruct (finite y && finite x && finite z) eqn:F; [|reflexivity].
+  - cbn [enc]. destruct (valid y && valid x) eqn:F; [|reflexivity].
+    apply andb_true_iff in F. destruct F as [Fy Fx]. destruct y, x; try discriminate. cbn in Fy, Fx. subst.
+    unfold enc_orig. cbn [coords fst snd map jof dec]. rewrite eqb_point_refl. cbn. rewrite andb_false_r. reflexivity.
+  - cbn [enc]. destruct (valid y && valid x && finite z) eqn:F; [|reflexivity].
     apply andb_true_iff in F. destruct F as [F Fz]. apply andb_true_iff in F. destruct F as [Fy Fx].
-    destruct y, x, z; try discriminate.
-    unfold enc_orig. cbn [coords fst snd map jof dec]. rewrite eqb_point_refl. reflexivity.
-  - cbn [enc]. destruct (finite a && finite b && finite c && finite d) eqn:F; [|reflexivity].
+    destruct y, x, z; try discriminate. cbn in Fy, Fx. subst.
+    unfold enc_orig. cbn [coords fst snd map jof dec]. rewrite eqb_point_refl. cbn. rewrite andb_false_r. reflexivity.
+  - cbn [enc]. destruct (valid a && valid b && valid c && valid d) eqn:F; [|reflexivity].
     apply andb_true_iff in F. destruct F as [F Fd]. apply andb_true_iff in F. destruct F as [F Fc].
-    apply andb_true_iff in F. destruct F as [Fa Fb]. destruct a, b, c, d; try discriminate.
-    unfold enc_orig. cbn [coords fst snd map jof dec]. rewrite eqb_polygon_point. reflexivity.
-  - destruct H as [Hk Hf]. cbn [enc]. unfold enc_orig. cbn [coords fst snd dec]. rewrite Hk.
-    rewrite all_some_finite by exact Hf. reflexivity.
+    apply andb_true_iff in F. destruct F as [Fa Fb]. destruct a, b, c, d; try discriminate. cbn in Fa, Fb, Fc, Fd. subst.
+    unfold enc_orig. cbn [coords fst snd map jof dec]. rewrite eqb_polygon_point. cbn. rewrite andb_false_r. reflexivity.
+  - destruct H as [Hk [Hf Hv]]. cbn [enc]. unfold enc_orig. cbn [coords fst snd dec]. rewrite Hk.
+    rewrite all_some_finite by exact Hf. destruct rv; cbn; [rewrite (Hv eq_refl); reflexivity | reflexivity].
 Qed.
 
 Definition t1 : bytes := [49%N].
 Definition t2 : bytes := [50%N].
 Definition t4 : bytes := [52%N].
 Definition t5 : bytes := [53%N].
+Definition t100 : bytes := [49%N; 48%N; 48%N].
+Definition t200 : bytes := [50%N; 48%N; 48%N].
 Definition k_line : bytes := bytes_of_string "LineString".
 
 (* the pinned writer: POINT 1 inf comes back as POINT 1 NaN; BOUNDS 1 2 nan 4 does not load *)
 Theorem geo_orig_refuted :
-  (exists g g', dec (enc_orig g) = Some g' /\ coords g' <> coords g) /\
-  (exists g, dec (enc_orig g) = None).
+  (exists g g', dec false (enc_orig g) = Some g' /\ coords g' <> coords g) /\
+  (exists g, dec false (enc_orig g) = None).
 Proof.
   split.
-  - exists (GPoint (Fin t1) PInf), (GPoint (Fin t1) NaN). split; [vm_compute; reflexivity | vm_compute; discriminate].
-  - exists (GRect (Fin t1) (Fin t2) NaN (Fin t4)). vm_compute. reflexivity.
+  - exists (GPoint (Fin t1 true) PInf), (GPoint (Fin t1 true) NaN). split; [vm_compute; reflexivity | vm_compute; discriminate].
+  - exists (GRect (Fin t1 true) (Fin t2 true) NaN (Fin t4 true)). vm_compute. reflexivity.
 Qed.
+
+(* the first repair (non-finite coordinates only) under REQUIREVALID: POINT 100 200 is accepted (POINT
+   is never validated), written as object {"type":"Point","coordinates":[200,100]} and refused at load;
+   without REQUIREVALID the same record loads *)
+Theorem geo_requirevalid_refuted :
+  exists g, dec true (enc_finite g) = None /\ option_map coords (dec false (enc_finite g)) = Some (coords g) /\
+            option_map coords (dec true (enc g)) = Some (coords g).
+Proof. exists (GPoint (Fin t100 false) (Fin t200 false)). repeat split; vm_compute; reflexivity. Qed.
 
 (* open: any other geometry with an infinite coordinate (an overflowing literal such as 1e999 in the
    GeoJSON text) is written with null and refused at load *)
 Theorem geo_other_nonfinite_refuted :
-  exists k cs, bytes_eqb k k_point = false /\ dec (enc (GOther k cs)) = None.
-Proof. exists k_line, [PInf; Fin t5; Fin t1; Fin t2]. split; vm_compute; reflexivity. Qed.
+  exists k cs, bytes_eqb k k_point = false /\ dec false (enc (GOther k cs)) = None.
+Proof. exists k_line, [PInf; Fin t5 true; Fin t1 true; Fin t2 true]. split; vm_compute; reflexivity. Qed.
 
 (* ------------------------------------------------------------------ 3. start-up order *)
 
